@@ -8,8 +8,9 @@ package main
 // Inputs (C03): every command-line input is resolved with FileMatch and merged, in command-line order, with its
 // inherited layers (MergeFileLayers) unless -P is given, in which case the file alone is merged (MergeFile).
 //@ func main() ()
-//@   propagates all   [C08] [C03] [C05]
+//@   propagates all   [C08] [C03] [C05] [C07] [C20]
 //@   property C05, C03, C18
+//@   property C01, C02, C04, C07, C10, C12, C13, C14, C17 shallow   -- every property that says "... is an error" is observed through this program: a failure of loading, layering or output must end the run with a failure status (propagates)
 //@   loop 1
 //@     transition (=> (not (= format@iter "")) (= format format@iter))                                      [C05]
 //@     invariant (wfDocs (Parser.docs p) allocTop)
